@@ -28,7 +28,7 @@ EXPLANATION = (
     "Markup/Expr/Pattern node whose range contains every non-blank character of the request, the conversion mode is the one "
     "determined by the nearest Markup/CodeBlock/Equation ancestor and the indent passed to nest() is the number of spaces after the "
     "last LF before the trimmed start.  Whether splicing the returned text re-parses to an equivalent tree needs the Typst parser "
-    "as oracle and is outside the claim.")
+    "as oracle and is outside the claim. Session 3: the whitespace-token converters with the whole configuration symbolic (replayed through format_source_range with the model's blank_lines_upper_bound); and the property as stated on whole documents: format_source_range from its MIR with every converter real for the span of every node and ranges inside, the text laid out by the interpreted renderer, spliced into the source and parsed by the REAL parser (parses, same tree modulo layout, returned range covers the trimmed request).")
 
 
 def compositions(n, k):
